@@ -1153,6 +1153,31 @@ def r_jigg_category(repo, rep, R='R15.8'):
                 found = True
     rep.check(found, R, w, 'jigg:category-spelling', 'an atom with a one-valued feature is written base[feature=true]',
               'no path of %s writes a one-valued feature as base[feature=true]' % fn.name)
+    # ... and the bare spelling (the base alone) is chosen only for an atom that has no feature value: a wider test (`is_ignorable`
+    # also covers [nb]) writes NP[nb]/N as NP/N in the span categories while the token attribute and every other format keep it
+    bare = []
+    n_bare = 0
+    for f_ in [fn] + [n_ for n_ in ast.walk(fn) if isinstance(n_, ast.FunctionDef) and n_ is not fn]:
+        for st, o in SymExec(f_, unroll=1).run():
+            if o != 'return' or st.ret is None or not (st.ret[0] == 'attr' and st.ret[2] == 'base'):
+                continue
+            x_ = st.ret[1]
+            n_bare += 1
+            fv = A(A(x_, 'feature'), 'value')
+            absent = False
+            for c_, pol, _n in st.conds:
+                if pol and c_[0] == 'cmp' and c_[1] in ('is', '==') and ((c_[2] == fv and c_[3] == C(None)) or (c_[3] == fv and c_[2] == C(None))):
+                    absent = True
+                if (not pol) and (c_ == fv or (c_[0] == 'cmp' and c_[1] in ('is not', '!=') and c_[2] == fv and c_[3] == C(None))):
+                    absent = True
+                if pol and c_[0] == 'cmp' and c_[1] == '==' and c_[3] == C('') and c_[2] == ('call', N('str'), (A(x_, 'feature'),), ()):
+                    absent = True
+            if not absent:
+                bare.append('; '.join('%s%s' % ('' if pol else 'not ', show(c_)[:50]) for c_, pol, _n in st.conds[-2:]))
+    if n_bare:
+        rep.check(not bare, R, w, 'jigg:category-bare', 'the base alone is written only for an atom without a feature value (%d paths)' % n_bare,
+                  '%s writes the base alone when %s: an atom that has a feature (e.g. NP[nb]) loses it in the span categories, which then disagree with '
+                  'the token attribute and with every other format' % (fn.name, bare[0] if bare else ''))
 
 
 def r_normalise_on_copy(repo, rep, R='R15.9'):
